@@ -199,3 +199,36 @@ def random_layout(rng, max_dims=3, max_size=4, max_elems=2000, dtypes=('f8',), m
 def heuristic_safe(lay):
     """the tall-matrix orientation guesses of pyUSID are harmless: strictly fewer dimensions than points per side"""
     return len(lay.pos_sizes) < lay.N and len(lay.spec_sizes) < lay.M
+
+
+class Bystander:
+    """Another Main dataset in ANOTHER file (same internal paths), kept open for a whole run.  Objects are made for it and used
+    between the construction and the use of the object under test: state shared between dataset objects, or caches keyed by
+    HDF5 path / request only, then show up as wrong answers of the object under test."""
+    _inst = {}
+
+    @classmethod
+    def get(cls, tmpdir):
+        import os
+        if tmpdir not in cls._inst or not cls._inst[tmpdir].f:
+            cls._inst[tmpdir] = cls(os.path.join(tmpdir, 'bystander.h5'))
+        return cls._inst[tmpdir]
+
+    def __init__(self, path):
+        self.f = h5py.File(path, 'w')
+        self.main = write_layout(self.f, Layout([3, 2], [1, 0], [2, 3], [0, 1], dtype='f8'))
+        self.n = 0
+        self.keep = None
+
+    def touch(self):
+        import pyUSID as usid
+        u = usid.USIDataset(self.main, sort_dims=bool(self.n % 2))
+        self.n += 1
+        u.get_n_dim_form()
+        u.slice({u.pos_dim_labels[0]: [0, 1], u.spec_dim_labels[-1]: 0}, ndim_form=False)
+        u.get_pos_values(u.pos_dim_labels[0])
+        u.get_spec_values(u.spec_dim_labels[0])
+        if self.n % 3 == 0:
+            u.toggle_sorting()
+            u.get_n_dim_form()
+        self.keep = u
